@@ -229,7 +229,10 @@ let eval inp obs =
     (* up to 50000 assignments are searched (lazily: the search stops at the first that explains the
        log); the former cap of 200 fell back to "unregistration first everywhere" for histories with
        four races and produced a false alarm *)
-    let cands = if List.length cands > 50000 then [hops] else cands in
+    if List.length cands > 50000 then
+      (* more race schedules than are searched: not judged (counted as indeterminate), never an alarm *)
+      { default_verdict with model_obs = obs; spec_ok = None; model_spec_ok = true; nontrivial = false; indeterminate = true }
+    else
     let ok = (try
         let toks = List.filter (fun t -> t <> "STOPPED" && t.[0] <> 'M' && t.[0] <> 'X') obs in
         let (_, _, incs, pend) = parse_obs db toks in
@@ -255,7 +258,9 @@ let eval inp obs =
     (* up to 50000 assignments are searched (lazily: the search stops at the first that explains the
        log); the former cap of 200 fell back to "unregistration first everywhere" for histories with
        four races and produced a false alarm *)
-    let cands = if List.length cands > 50000 then [hops] else cands in
+    if List.length cands > 50000 then
+      { default_verdict with model_obs = obs; spec_ok = None; model_spec_ok = true; nontrivial = false; indeterminate = true }
+    else
     let matching = (match List.find_opt (fun hs -> obs_of_model cfg db hs obs = obs) cands with
         | Some hs -> [hs] | None -> []) in
     let chosen = (match matching with hs :: _ -> hs | [] -> hops) in
